@@ -137,6 +137,16 @@ with one entry per run, whatever the number of runs -/
 def csFinal (rs : List Run) (firstOk : Bool) : Except String (List CSReq) :=
   .ok [csSend (rs.zipIdx.map (fun p => csEntry p.2 p.1)) firstOk]
 
+/-- final mode for *one* Codespeed reporter of a session **as repaired**: `attached[i]` says whether
+run `i` has this reporter (experiments may bring their own `reporting.codespeed` section); it
+reports the runs it is attached to and no others -/
+def csFinalOf (attached : List Bool) (rs : List Run) (firstOk : Bool) : Except String (List CSReq) :=
+  .ok [csSend ((rs.zipIdx.filter (fun p => attached.getD p.2 false)).map (fun p => csEntry p.2 p.1)) firstOk]
+
+/-- before that repair every reporter reported every run the executor had, under its own project -/
+def csFinalOfAllRuns (_attached : List Bool) (rs : List Run) (firstOk : Bool) : Except String (List CSReq) :=
+  csFinal rs firstOk
+
 /-- the pinned tree: `run_ids[0]` on a set when there is exactly one run -/
 def csFinalPinned (rs : List Run) (firstOk : Bool) : Except String (List CSReq) :=
   if rs.length = 1 then .error "TypeError" else csFinal rs firstOk
